@@ -513,3 +513,60 @@ func (p XStrProfile) GetClaims() psatoken.IClaims {
 		CanonicalProfile: p.N,
 	}, EatProfile: &n}
 }
+
+// ---- kinds added after the third wave of seeded changes
+
+// XP1NProfile: extension over profile 1 whose factory leaves the (optional)
+// profile claim unset, relying on the canonical profile.
+type XP1NProfile struct{ N string }
+
+func (p XP1NProfile) GetName() string { return p.N }
+func (p XP1NProfile) GetClaims() psatoken.IClaims {
+	return &XP1Claims{P1Claims: psatoken.P1Claims{
+		SwComponents:     &psatoken.SwComponents[*psatoken.SwComponent]{},
+		CanonicalProfile: p.N,
+	}}
+}
+
+type funcProfile struct {
+	name string
+	mk   func() psatoken.IClaims
+}
+
+func (p funcProfile) GetName() string             { return p.name }
+func (p funcProfile) GetClaims() psatoken.IClaims { return p.mk() }
+
+func eatProfileOf(name string) *eat.Profile {
+	ep := eat.Profile{}
+	if err := ep.Set(name); err != nil {
+		panic(err)
+	}
+	return &ep
+}
+
+// Two function-local claims types with the SAME type name ("main.claims") but
+// different JSON profile members, relying on the embedded P2Claims for every
+// method (no codecs of their own).
+func localProfileA(name string) psatoken.IProfile {
+	type claims struct {
+		psatoken.P2Claims
+		Profile *string `json:"la-profile"`
+	}
+	return funcProfile{name, func() psatoken.IClaims {
+		n := name
+		return &claims{P2Claims: psatoken.P2Claims{Profile: eatProfileOf(name),
+			SwComponents: &psatoken.SwComponents[*psatoken.SwComponent]{}, CanonicalProfile: name}, Profile: &n}
+	}}
+}
+
+func localProfileB(name string) psatoken.IProfile {
+	type claims struct {
+		psatoken.P2Claims
+		Profile *string `json:"lb-profile"`
+	}
+	return funcProfile{name, func() psatoken.IClaims {
+		n := name
+		return &claims{P2Claims: psatoken.P2Claims{Profile: eatProfileOf(name),
+			SwComponents: &psatoken.SwComponents[*psatoken.SwComponent]{}, CanonicalProfile: name}, Profile: &n}
+	}}
+}
